@@ -1476,6 +1476,22 @@ func (e *Exec) lookupLocal(f *frame, li *loopInfo, name string, h *Heap, over ma
 			return f.vals[phi], true
 		}
 	}
+	// a variable that lives in memory (its address is taken, or it is a struct assigned field by field): its
+	// cell, read in the current state - the DebugRef at its definition names the initial value only
+	var cells []*ssa.Alloc
+	for b := li.header.Idom(); b != nil; b = b.Idom() {
+		for _, in := range b.Instrs {
+			if al, ok := in.(*ssa.Alloc); ok && al.Comment == name {
+				cells = append(cells, al)
+			}
+		}
+	}
+	if len(cells) == 1 {
+		if v, ok := f.vals[cells[0]]; ok {
+			a := e.addrOf(v)
+			return Val{T: e.load(h, a), Typ: a.Typ}, true
+		}
+	}
 	// a variable defined before the loop: walk the dominator chain upwards from the header; in each block
 	// the last mention wins (a DebugRef of the variable, or the phi that merges its definitions)
 	var best ssa.Value
